@@ -38,7 +38,7 @@ static std::string expected_classes (int code) {
   case MIR_BSTART: return "i";
   case MIR_BEND: return "I";
   case MIR_VA_ARG: return "iIM";
-  case MIR_VA_BLOCK_ARG: return "iIII";
+  case MIR_VA_BLOCK_ARG: return "IIII"; /* MIR.md: operand 1 is the address the block is moved TO: an input */
   case MIR_VA_START: case MIR_VA_END: return "I";
   default: break;
   }
